@@ -59,6 +59,7 @@ Step(e) ==
       [] e.op = "ToDna" -> ToMolT("dna")
       [] e.op = "Degap" -> DegapT
       [] e.op = "DeepCopy" -> DeepCopyT(e.args[1])
+      [] e.op = "CallerReuses" -> CallerReusesT(e.args[1])
       [] OTHER -> FALSE
 
 Matches(e) == /\ Len(e.anom) = 0      \* to_dict / names / len / get_gapped_seq of the result agree with each other
